@@ -211,10 +211,36 @@ class CSSNamespaceRule(cssrule.CSSRule):
                     'CSSNamespaceRule: No ";" found: %s' % self._valuestr(cssText)
                 )
 
+            sheet = self.parentStyleSheet
+            if (
+                wellformed
+                and sheet is not None
+                and (new['prefix'] or '') != self._prefix
+                and any(r is self for r in sheet.cssRules)
+            ):
+                # as for prefix: one prefix has one rule (the rule is edited
+                # as a part of the sheet, not just being parsed)
+                for r in sheet.cssRules:
+                    if (
+                        r is not self
+                        and r.type == r.NAMESPACE_RULE
+                        and r.prefix == (new['prefix'] or '')
+                    ):
+                        wellformed = False
+                        self._log.error(
+                            'CSSNamespaceRule: Prefix "%s" is already used in '
+                            'this sheet.' % new['prefix'],
+                            error=xml.dom.InvalidModificationErr,
+                        )
+                        break
+
             # set all
             if wellformed:
                 # may raise and nothing is changed then
                 self.namespaceURI = new['uri']
+                if self._namespaceURI != new['uri']:
+                    # refused (and only logged): nothing is changed either
+                    return
                 self.atkeyword = new['keyword']
                 self._prefix = new['prefix']
                 self._setSeq(newseq)
